@@ -23,16 +23,16 @@ func init() {
 
 	register(&core.Rule{ID: "C16.1", Prop: "C16", MinSites: 1,
 		Desc: "parseProtoAddr contains no reachable panicking construct (index/slice, unchecked type assertion, division, panic) under the target's constant folding",
-		Run: runC16_1})
+		Run:  runC16_1})
 	register(&core.Rule{ID: "C16.2", Prop: "C16", MinSites: 5,
 		Desc: "scheme table: success only under the seven supported scheme literals returning u.Scheme; \"\"/empty endpoint ↦ ErrInvalidNetworkAddress; default ↦ ErrUnsupportedProtocol; listener.open accepts the same seven literals",
-		Run: runC16_2})
+		Run:  runC16_2})
 	register(&core.Rule{ID: "C16.3", Prop: "C16", MinSites: 14,
 		Desc: "normalisation: stores to ReadBufferCap/WriteBufferCap/EdgeTriggeredIOChunk are CeilToPowerOfTwo(old value) or a power-of-two constant not below the bound of their case; createListeners and NewClient agree",
-		Run: runC16_3})
+		Run:  runC16_3})
 	register(&core.Rule{ID: "C16.4", Prop: "C16", MinSites: 3,
 		Desc: "determineEventLoops: default 1, NumEventLoop only if > 0, clamped to gfd.EventLoopIndexMax on every return",
-		Run: runC16_4})
+		Run:  runC16_4})
 }
 
 func runC16_1(c *core.Ctx) {
